@@ -141,6 +141,12 @@ def configs(tier, rng):
         out.append(dict(rt=rt, res=1.0, until=12, strict=False, sims=[{'typ': 'event-based', 'self_steps': False, 'events': {'0': [3, 5]}}, {'step_size': 6}, {'step_size': 11}], connect=[(0, 1), (0, 2)]))
         out.append(dict(rt=rt, res=1.0, until=10, strict=False, sims=[{'step_size': 3}, {'step_size': 7}], connect=[(0, 1)]))
     for rt in rts:
+        # several external events pending at once, requested out of order
+        ev = {'typ': 'event-based', 'self_steps': False}
+        out.append(dict(rt=rt, res=1.0, until=9, strict=False, sims=[dict(ev, events={'0': [2, 6, 4]}), {}], connect=[]))
+        out.append(dict(rt=rt, res=1.0, until=10, strict=False, sims=[dict(ev, events={'0': [7, 2, 5, 3]}), {'step_size': 4}], connect=[(0, 1)]))
+        out.append(dict(rt=rt, res=0.5, until=8, strict=False, sims=[dict(ev, events={'0': [5, 3], '3': [6, 4]}), {}], connect=[]))
+    for rt in rts:
         # triggered simulators behind an ancestor whose next step is far away: own queued steps (external events, self-steps)
         # and time-shifted triggers must still be paced by the clock
         ev = {'typ': 'event-based', 'self_steps': False}
